@@ -77,6 +77,18 @@ Open(key, nonce, box) ==
 (***************************************************************************)
 BoxKeyOfShared(shared) == HSalsa20(shared, Zeros(16))         \* box.Precompute
 LowOrderBoxKey == BoxKeyOfShared(Zeros(32))
+\* box.Precompute(sharedKey, pk, sk) writes its result into a 32-byte array that the CALLER owns and may have used before
+\* (a previous Precompute, a sentinel, anything).  `buf` is that array's content on entry.  The code does two steps in it:
+\* curve25519.ScalarMult sets all 32 bytes to X25519(sk, pk) - to 0^32 when the peer key is a low-order point - and
+\* HSalsa20 then runs in place (out aliases the key).  Nothing of `buf` survives the first step, so
+\*      Precompute's result is a function of (sk, pk) only                      (PrecomputeBufferIndependent)
+\* - also for low-order peer keys, where "nothing was computed" must still mean "0^32 was written".
+ScalarMultInto(buf, shared) == [i \in 1..32 |-> shared[i]]          \* every byte of the caller's array is overwritten
+PrecomputeInto(buf, shared) == HSalsa20(ScalarMultInto(buf, shared), Zeros(16))
+PrecomputeBufferIndependent(bufs, shared) == \A b \in bufs : PrecomputeInto(b, shared) = BoxKeyOfShared(shared)
+\* The same holds for every other output the caller owns: Seal/Open/Sign append to out[:len(out)] and whatever the spare
+\* capacity of `out` held before is overwritten or left outside the returned slice; the returned bytes are
+\* out || f(inputs) with f independent of the previous contents (Seal, Open above take no such argument at all).
 BoxSeal(shared, nonce, msg) == Seal(BoxKeyOfShared(shared), nonce, msg)
 BoxOpen(shared, nonce, box) == Open(BoxKeyOfShared(shared), nonce, box)
 \* Precompute is symmetric between the parties exactly because X25519 is: X25519(a, X25519(b, 9)) = X25519(b, X25519(a, 9));
